@@ -53,12 +53,21 @@ type treeIn struct {
 	T  node `json:"t"`
 }
 
+type deriv struct {
+	From int    `json:"from"`
+	How  string `json:"how,omitempty"` // "" literal | clone | copy | changenode | clone-first (clone before the first ID())
+}
+
 type input struct {
 	Kind    string      `json:"kind"` // rosters trees tokens protos services servers nodes
 	Label   string      `json:"label"`
 	Rosters [][]mem     `json:"rosters,omitempty"`
 	Trees   []treeIn    `json:"trees,omitempty"`
 	Tokens  [][6]string `json:"tokens,omitempty"` // hex uuids: roster tree proto service round node
+	// Derive[i] (optional) says how token i is OBTAINED: built from a literal (How == ""),
+	// or derived the way real code does it -- ID() is called on token From, the token is
+	// cloned / copied, the fields are set to Tokens[i], and ID() is called on the result.
+	Derive []deriv `json:"derive,omitempty"`
 	Names   []string    `json:"names,omitempty"`  // hex
 	Keys    []int       `json:"keys,omitempty"`
 }
@@ -238,6 +247,77 @@ func tokenID(t [6]string) string {
 	})
 }
 
+func mkToken(t [6]string) *onet.Token {
+	return &onet.Token{
+		RosterID: onet.RosterID(uuidOf(t[0])), TreeID: onet.TreeID(uuidOf(t[1])),
+		ProtoID: onet.ProtocolID(uuidOf(t[2])), ServiceID: onet.ServiceID(uuidOf(t[3])),
+		RoundID: onet.RoundID(uuidOf(t[4])), TreeNodeID: onet.TreeNodeID(uuidOf(t[5])),
+	}
+}
+
+func setFields(tok *onet.Token, t [6]string) {
+	tok.RosterID = onet.RosterID(uuidOf(t[0]))
+	tok.TreeID = onet.TreeID(uuidOf(t[1]))
+	tok.ProtoID = onet.ProtocolID(uuidOf(t[2]))
+	tok.ServiceID = onet.ServiceID(uuidOf(t[3]))
+	tok.RoundID = onet.RoundID(uuidOf(t[4]))
+	tok.TreeNodeID = onet.TreeNodeID(uuidOf(t[5]))
+}
+
+// derivedTokenIDs obtains token t from the token base the way real code does and
+// returns the id of the result (asked twice).
+func derivedTokenIDs(base, t [6]string, how string) (first, second string) {
+	var tok *onet.Token
+	first = catch(func() string {
+		b := mkToken(base)
+		switch how {
+		case "clone":
+			b.ID()
+			tok = b.Clone()
+			setFields(tok, t)
+		case "copy":
+			b.ID()
+			c := *b
+			tok = &c
+			setFields(tok, t)
+		case "changenode":
+			b.ID()
+			tok = b.ChangeTreeNodeID(onet.TreeNodeID(uuidOf(t[5])))
+			// the other fields are those of the base: the generator only uses this
+			// derivation for tokens that differ from the base in the node field
+		case "clone-first":
+			tok = b.Clone()
+			b.ID()
+			setFields(tok, t)
+		default:
+			panic("unknown derivation " + how)
+		}
+		id := tok.ID()
+		return hex.EncodeToString(id[:])
+	})
+	second = catch(func() string {
+		id := tok.ID()
+		return hex.EncodeToString(id[:])
+	})
+	return
+}
+
+func derivOf(in *input, i int) deriv {
+	if i < len(in.Derive) {
+		return in.Derive[i]
+	}
+	return deriv{}
+}
+
+// tokenIDs: the id of token i of the group, asked twice
+func tokenIDs(in *input, i int) (string, string) {
+	d := derivOf(in, i)
+	if d.How == "" {
+		return tokenID(in.Tokens[i]), tokenID(in.Tokens[i])
+	}
+	return derivedTokenIDs(in.Tokens[d.From], in.Tokens[i], d.How)
+}
+
 func unhex(h string) []byte {
 	b, err := hex.DecodeString(h)
 	if err != nil {
@@ -307,8 +387,9 @@ func firstIDs(in *input) []string {
 			out = append(out, newTreeID(in, t))
 		}
 	case "tokens":
-		for _, t := range in.Tokens {
-			out = append(out, tokenID(t))
+		for i := range in.Tokens {
+			f, _ := tokenIDs(in, i)
+			out = append(out, f)
 		}
 	case "protos":
 		for _, n := range in.Names {
@@ -623,7 +704,8 @@ func run(raw json.RawMessage) lib.Case {
 		}
 	case "tokens":
 		for i, t := range in.Tokens {
-			runs := []string{first[i], tokenID(t), fresh[i]}
+			again, second := tokenIDs(&in, i)
+			runs := []string{first[i], again, second, fresh[i]}
 			items[i] = fmt.Sprintf("((Tok %s %s %s %s %s %s), %s)", litHex(t[0]), litHex(t[1]), litHex(t[2]), litHex(t[3]), litHex(t[4]), litHex(t[5]),
 				coqObs(runs, nil, tokenOracle(t)))
 		}
@@ -757,7 +839,25 @@ func subGroup(in *input, i, j int) input {
 		out.Rosters = in.Rosters
 		out.Trees = []treeIn{in.Trees[i], in.Trees[j]}
 	case "tokens":
-		out.Tokens = [][6]string{in.Tokens[i], in.Tokens[j]}
+		// keep the tokens the two are derived from
+		idx := []int{i, j}
+		pos := map[int]int{i: 0, j: 1}
+		for _, k := range []int{i, j} {
+			if d := derivOf(in, k); d.How != "" {
+				if _, ok := pos[d.From]; !ok {
+					pos[d.From] = len(idx)
+					idx = append(idx, d.From)
+				}
+			}
+		}
+		for _, k := range idx {
+			out.Tokens = append(out.Tokens, in.Tokens[k])
+			d := derivOf(in, k)
+			if d.How != "" {
+				d.From = pos[d.From]
+			}
+			out.Derive = append(out.Derive, d)
+		}
 	case "protos", "services":
 		out.Names = []string{in.Names[i], in.Names[j]}
 	default:
